@@ -31,5 +31,8 @@ def jobs(tier, seed):
                   bound="connection set: server0=[%s] server1=[%s] (u=UDP t=TCP), write interest per connection symbolic, "
                         "0/1 active query, numsocks 0..5" % (s0, s1 if s1 is not None else "-")))
     J += mjobs.cleanup_jobs(tier)
-    J += [j for j in mjobs.sendquery_jobs(tier) if "srv1" in j["name"]]
+    sq = [j for j in mjobs.sendquery_jobs(tier) if "srv1" in j["name"]]
+    if tier == "quick":  # ex0 combinations run in C01/C09
+        sq = [j for j in sq if "_ex0_" not in j["name"]]
+    J += sq
     return J
